@@ -507,6 +507,11 @@ func (srv *Server) serveUDP(l net.PacketConn) error {
 	lUDP, isUDP := l.(*net.UDPConn)
 	readerPC, canPacketConn := reader.(PacketConnReader)
 	if !isUDP && !canPacketConn {
+		// The server does not begin to serve: it must not count as started,
+		// or a later Shutdown would wait for a serve loop that never ran.
+		srv.lock.Lock()
+		srv.started = false
+		srv.lock.Unlock()
 		return &Error{err: "PacketConnReader was not implemented on Reader returned from DecorateReader but is required for net.PacketConn"}
 	}
 
